@@ -2049,6 +2049,7 @@ Proof.
   destruct (Z.eqb_spec N 0) as [E|_]; [lia|]. cbn [bind].
   change (Z.of_nat 0) with 0. change (ndimZ x =? 1) with false. cbn [andb].
   change ((0 =? 0) && false) with false. cbv iota.
+  unfold arg_core.
   change (py_pop (iota (length (c_shape x))) 0) with (Ok (0, [1])).
   change (py_pop (c_shape x) 0) with (Ok (N, [M])). cbn [bind].
   change (ss_transpose x [0; 1]) with x.
